@@ -225,17 +225,35 @@ def generic_positions(rng, n, edges):
     raise RuntimeError("could not place generic positions")
 
 
+def large_reference(rng, n):
+    """A helix of n atoms bonded i-(i+1): every interior atom is an anchor with a generic frame; O(n) to build."""
+    pitch, radius, dphi = rng.uniform(0.03, 0.06), rng.uniform(0.15, 0.3), rng.uniform(0.5, 1.2)
+    pos = [[radius * math.cos(dphi * i) + rng.uniform(-0.01, 0.01), radius * math.sin(dphi * i) + rng.uniform(-0.01, 0.01),
+            pitch * i + rng.uniform(-0.005, 0.005)] for i in range(n)]
+    edges = [(i, i + 1) for i in range(n - 1)]
+    names = [gen.atom_name(rng, i) for i in range(n)]
+    return edges, names, pos, {"geometry": "generic", "large": n}
+
+
 def gen_species(rng, tier, focus):
     small_ref = (focus == "C02" and rng.random() < 0.4) or (focus == "C03" and rng.random() < 0.12)
     if small_ref:
         n = rng.choice([1, 2, 2])
     else:
         n = rng.randint(3, 14) if tier == "quick" or rng.random() < 0.8 else rng.randint(15, 40)
+    large_ref = False
+    if not small_ref and focus in ("C01", "C04") and rng.random() < (0.006 if focus == "C01" else 0.002):
+        # a reference of several hundred atoms (a polymer, a protein backbone): more than 256 anchors
+        n = rng.choice([rng.randint(258, 300), rng.randint(300, 600), 513, 1030])
+        large_ref = True
     if n >= 3:
         w = {"C01": [3, 2, 2, 2, 2, 1, 2, 2], "C02": [3, 2, 2, 2, 2, 3, 0, 2], "C03": [6, 1, 1, 1, 2, 2, 2, 1],
              "C04": [6, 1, 1, 1, 1, 1, 0, 1], "C17": [2, 2, 2, 2, 2, 2, 2, 2]}[focus]
         geometry = rng.choices(["generic", "axis", "diagonal", "intdir", "mixed", "nearly", "band", "grid"], weights=w)[0]
-        edges, names, pos, info = gen_reference(rng, n, geometry)
+        if large_ref:
+            edges, names, pos, info = large_reference(rng, n)
+        else:
+            edges, names, pos, info = gen_reference(rng, n, geometry)
     else:
         edges = [(0, 1)] if n == 2 else []
         names = [gen.atom_name(rng, i) for i in range(n)]
@@ -354,6 +372,8 @@ def gen_ops(rng, tier, focus, ref, tgt, info, n_res):
     nops = rng.randint(4, 12) if tier == "quick" else rng.randint(4, 30)
     if focus == "C04":
         nops = rng.randint(8, 30)
+    if info.get("large"):
+        nops = rng.randint(2, 4)
     weights = {
         "C01": {"construction": 6, "rigid": 2, "deformed": 1, "one_moved": 0, "other": 1, "repeat": 1, "reject": 1, "mutate": 2},
         "C02": {"construction": 2, "rigid": 8, "deformed": 1, "one_moved": 0, "other": 1, "repeat": 1, "reject": 1, "mutate": 1},
@@ -364,6 +384,8 @@ def gen_ops(rng, tier, focus, ref, tgt, info, n_res):
     }[focus]
     weights.setdefault("construction_object", 1 if focus != "C17" else 0)
     weights["again"] = {"C04": 3, "C17": 0}.get(focus, 0.5)
+    if info.get("large"):
+        weights = {"construction": 3, "rigid": 3, "construction_object": 1, "reject": 1, "again": 1}
     kinds = list(weights)
     ops = []
     n_calls = 0
@@ -452,8 +474,9 @@ def gen_ops(rng, tier, focus, ref, tgt, info, n_res):
             new = deformation(rng, ref_g, amp=0.0)
             op = {"op": "call", "conf": "other_instance", "positions": new or ref["positions"],
                   # residue numbers of the argument: consecutive, or one number on every residue
-                  "gro_resids": ([rng.choice([1, 17, 4242]) + r for r in range(n_res)] if rng.random() < 0.7
-                                 else [rng.choice([7, 1, 300])] * n_res),
+                  # (numbers above 99999 cannot come from a .gro file but can be set on the objects; they are numbers all the same)
+                  "gro_resids": ([rng.choice([1, 17, 4242, 99998, 100000, 123456]) + r for r in range(n_res)] if rng.random() < 0.7
+                                 else [rng.choice([7, 1, 300, 99999, 250000])] * n_res),
                   "velocities": rng.random() < 0.3}
             op.update(rigid(rng))
             ops.append(op)
@@ -905,7 +928,7 @@ def _execute(trace, ctx, ref_spec, tgt_spec, scale, n, m, ref_pos0, tgt_pos0):
         d = same_snap(snap_tgt_live, snap(tgt_live))
         if d:
             ctx.violate(P4, "construction-tgt-modified", f"mapping changed the {d} of the target the map was built from")
-        for (r, s0), s_before in zip(returned, before_ret):
+        for (r, s0, _c), s_before in zip(returned, before_ret):
             d = same_snap(s_before, snap(r))
             if d:
                 ctx.violate(P4, "earlier-result-modified", f"mapping changed the {d} of a previously returned molecule")
@@ -933,7 +956,7 @@ def _execute(trace, ctx, ref_spec, tgt_spec, scale, n, m, ref_pos0, tgt_pos0):
             ctx.op("call:" + op["conf"], "non-finite")
             ctx.violate(prop, "result-not-finite", f"map({op['conf']} configuration) returned non-finite coordinates",
                         key=trace["info"]["geometry"])
-            returned.append([res, snap(res)])
+            returned.append([res, snap(res), op["conf"]])
             return None
         coord_scale = max(1.0, float(np.max(np.abs(pos))), float(np.max(np.abs(rpos))))
         # ---- C04: equals a freshly built map (references of >= 3 atoms) ----------------------------
@@ -976,6 +999,24 @@ def _execute(trace, ctx, ref_spec, tgt_spec, scale, n, m, ref_pos0, tgt_pos0):
             check_c01(pos, rpos)
         if op["conf"] in ("rigid", "other_instance") or (op["conf"] == "construction"):
             check_c02(op, pos, rpos, coord_scale)
+            if op["conf"] == "rigid" and not small:
+                # the same comparison as a caller makes it: map(ref) obtained EARLIER and still held, map(R ref + t) obtained now
+                held = next((e for e in reversed(returned) if e[2] == "construction"), None)
+                if held is not None:
+                    try:
+                        live = np.array(held[0].atoms_positions, dtype=float)
+                    except Exception:
+                        live = None
+                    if live is not None and live.shape == rpos.shape:
+                        want_live = live @ np.array(op["R"]).T + np.array(op["t"])
+                        want_snap = held[1][0] @ np.array(op["R"]).T + np.array(op["t"])
+                        d_live = float(np.max(np.abs(want_live - rpos)))
+                        d_snap = float(np.max(np.abs(want_snap - rpos)))
+                        if d_live > 1e-8 * max(1.0, coord_scale / 100.0) and d_snap <= 1e-8 * max(1.0, coord_scale / 100.0):
+                            ctx.violate("C02", "rigid-motion-held-result",
+                                        f"map(R ref + t) equals R map(ref) + t only for a snapshot of map(ref): the molecule "
+                                        f"returned for ref, still held by the caller, now gives a difference of {d_live:.3e} nm")
+                        ctx.probe("equivariance_against_held_result")
         if op["conf"] == "construction_object" and small and construction_rigid[0]:
             # the construction object itself, wherever the harness' rigid mutations have left it
             check_c02(op, pos, rpos, coord_scale)
@@ -1022,7 +1063,7 @@ def _execute(trace, ctx, ref_spec, tgt_spec, scale, n, m, ref_pos0, tgt_pos0):
                             break
                 ctx.probe("equivariance_on_deformed_conformation")
         results.append((i, pos, rpos))
-        returned.append([res, snap(res)])
+        returned.append([res, snap(res), op["conf"]])
         arguments.append([arg, arg_snap])
         calls_by_op[i] = (pos, rpos)
         ctx.op("call:" + op["conf"], outcome)
@@ -1313,7 +1354,7 @@ def _execute(trace, ctx, ref_spec, tgt_spec, scale, n, m, ref_pos0, tgt_pos0):
                                                          f"the history")
             break
     # results handed out earlier must still be what they were when returned (unless the harness mutated them)
-    for r, s0 in returned:
+    for r, s0, _c in returned:
         d = same_snap(s0, snap(r))
         if d:
             ctx.violate(P4, "earlier-result-modified", f"the {d} of a returned molecule changed later in the history")
